@@ -45,29 +45,18 @@ def canon(p):
     return [seen.setdefault(repr(v), len(seen)) for v in p]
 
 
-def main():
-    tier, seed, replay = E.tier_seed()
-    V = E.Verdict(PID, tier, seed)
-    rng = random.Random(seed * 256203221 + 11)
-    V.coverage['rule'] = ('TLC: FeatureConstruction.tla - every frame (label + multi-value column over {"", a, b, "a,b", "b-a"} + two categorical columns, 3 rows) x flag subsets, '
-                          'one action per constructor in pipeline order; Additive, OneValuePerRow, MultiValueRule, OneSidedRule, TwoSidedRule, TargetControlIsLabel.  Every state is '
-                          'replayed through the real compute_batch_ranking (scoring stage replaced by a capture of the constructed frame) and the constructed frame compared: '
-                          'originals unchanged as prefix, every specified column present with the specified values, interaction columns by partition, control columns by name/shape. '
-                          'non-trivial = distinct (frame, flags) with at least one constructor enabled')
-    V.assumptions += ['the order of the appended columns is not constrained; unexpected additional columns are reported as drift only']
+def run_config(V, rng, tier, run_label, MV, AV, BV, flagsets):
     q = tier == 'quick'
-    flagsets = ['{"multi","sub1","sub2","interact","noise"}', '{"multi"}', '{"sub1","sub2"}'] if q else \
-        ['{}', '{"multi"}', '{"sub1"}', '{"sub2"}', '{"interact"}', '{"noise"}', '{"multi","sub1","sub2","interact","noise"}', '{"multi","interact"}', '{"sub1","sub2","noise"}', '{"sub2","interact"}']
     wd = E.workdir('c11')
     try:
         mc = E.write_mc(wd, 'FeatureConstruction', {'MC_Flags': '{' + ', '.join(flagsets) + '}'})
-        C = {'NRows': 3, 'MVals': '{"", "a", "a,b", "b-a"}' if q else '{"", "a", "b", "a,b", "b-a", "c-"}', 'AVals': '{"a","b"}', 'BVals': '{"a","b"}',
+        C = {'NRows': 3, 'MVals': MV, 'AVals': AV, 'BVals': BV,
              'FlagSets': '<- MC_Flags', 'MissingTokens': '{""}', 'NControls': 9}
         cfg = E.write_cfg(os.path.join(wd, 'mc.cfg'), constants=C, invariants=INVS + ['Emit'])
-        res = E.run_tlc(mc, cfg, timeout=2400, coverage=q)
-        E.require_ok(res, 'FeatureConstruction')
-        V.add_tlc(res, 'FeatureConstruction')
-        V.tlc_violation(res, 'FeatureConstruction')
+        res = E.run_tlc(mc, cfg, timeout=2400, coverage=(q and run_label == 'plain'))
+        E.require_ok(res, 'FeatureConstruction/' + run_label)
+        V.add_tlc(res, 'FeatureConstruction/' + run_label)
+        V.tlc_violation(res, 'FeatureConstruction/' + run_label)
         if res.coverage:
             for a in ('Expand', 'Sub', 'Interact', 'Noise'):
                 if res.coverage.get(a, (0, 0))[0] == 0:
@@ -143,9 +132,31 @@ def main():
                 else:
                     drift += 1
     V.count(evaluations=len(cases), nontrivial=nontriv, traces=len(cases))
-    V.notes['drift_extra_columns'] = drift
+    V.notes['drift_extra_columns_' + run_label] = drift
     mid = len(items) // 2
     V.add_sample({'item': items[mid], 'constructed_columns': (got[mid // chunk].get('ok') or [{}])[mid % chunk].get('columns')})
+
+
+def main():
+    tier, seed, replay = E.tier_seed()
+    V = E.Verdict(PID, tier, seed)
+    rng = random.Random(seed * 256203221 + 11)
+    V.coverage['rule'] = ('TLC: FeatureConstruction.tla - every frame (label + multi-value column over {"", a, b, "a,b", "b-a"} + two categorical columns, 3 rows) x flag subsets, '
+                          'one action per constructor in pipeline order; Additive, OneValuePerRow, MultiValueRule, OneSidedRule, TwoSidedRule, TargetControlIsLabel.  Every state is '
+                          'replayed through the real compute_batch_ranking (scoring stage replaced by a capture of the constructed frame) and the constructed frame compared: '
+                          'originals unchanged as prefix, every specified column present with the specified values, interaction columns by partition, control columns by name/shape. '
+                          'non-trivial = distinct (frame, flags) with at least one constructor enabled')
+    V.assumptions += ['the order of the appended columns is not constrained; unexpected additional columns are reported as drift only']
+    q = tier == 'quick'
+    full = ['{}', '{"multi"}', '{"sub1"}', '{"sub2"}', '{"interact"}', '{"noise"}', '{"multi","sub1","sub2","interact","noise"}', '{"multi","interact"}', '{"sub1","sub2","noise"}', '{"sub2","interact"}']
+    if q:
+        runs = [('plain', '{"", "a", "a,b", "b-a"}', '{"a","b"}', '{"a","b"}', ['{"multi","sub1","sub2","interact","noise"}', '{"multi"}', '{"sub1","sub2"}']),
+                ('punctuated-tokens', '{"a.b", "axb", "c+", "c", "c+,c", "a|b", "a*"}', '{"a"}', '{"a","b"}', ['{"multi"}'])]
+    else:
+        runs = [('plain', '{"", "a", "b", "a,b", "b-a", "c-"}', '{"a","b"}', '{"a","b"}', full),
+                ('punctuated-tokens', '{"a.b", "axb", "c+", "c", "c+,c", "a|b", "a*", "(a", "aa", "a.b-axb", "a"}', '{"a"}', '{"a","b"}', ['{"multi"}', '{"multi","interact"}'])]
+    for run_label, MV, AV, BV, flagsets in runs:
+        run_config(V, rng, tier, run_label, MV, AV, BV, flagsets)
     V.coverage['exhaustive'] = True
     return V.finish()
 
